@@ -2268,6 +2268,10 @@ def _import_pycode_from(pycode_path):
             logger.info('> Loaded generated Python code in "%s".', pycode_path)
         except ImportError:
             logger.debug('> Failed loading generated Python code in "%s".', pycode_path)
+            # do not leave the partially imported package behind: after regenerating the code,
+            # `reload_submodules` would otherwise reload only the part imported before the failure
+            sys.modules.pop(MODULE_NAME, None)
+            pycode = None
 
     return pycode
 
